@@ -2,7 +2,7 @@
 Theorems: Props/C15.lean over Model/DepGraph.lean (DFS correctness, acyclicity invariant, order-independent
 verdicts, scheduler invariants, Kahn).  Tie: gohook depgraph (real AddDependency/ComputeTopologicalOrder) vs
 fvdriver depgraph on exhaustive small edge sequences + random; whole compiler on all 512 digraphs over 3 modules."""
-import os, sys, json, itertools
+import re, os, sys, json, itertools
 sys.path.insert(0, os.path.join(os.path.dirname(os.path.abspath(__file__)), "..", "lib"))
 from common import *
 from ferretrun import *
@@ -119,11 +119,56 @@ def main():
             if rng.below(3): a, b = min(a, b), max(a, b)
             es.append((b, a) if rng.below(8) == 0 else (a, b))
         seqs.append((n, es))
-    lines = ["%s %s" % (",".join(name(i) for i in range(n)), " ".join("%s>%s" % (name(a), name(b)) for a, b in es)) for n, es in seqs]
+    big = {}
+    # large graphs (13..48 modules) with the shape of a real project: ids 0..B-1 are builtin modules (they import builtins only), id B is the entry
+    # module (nothing imports it), the rest are local modules.  Orderings that are right for a handful of modules may rely on properties (stability
+    # of a sort, recursion depth, map iteration) that only fail beyond a size or only when module kinds are mixed.
+    for q in range(120 if tier == "quick" else 1500):
+        n = 13 + rng.below(36)
+        B = 1 + rng.below(max(1, n // 4))
+        E = B
+        es = []
+        locs = list(range(B + 1, n))
+        for i in range(1, len(locs)):               # shuffle the local modules: the chain / layers below follow this order, not the name order
+            j = rng.below(i + 1); locs[i], locs[j] = locs[j], locs[i]
+        kind = q % 3
+        if kind == 0:                                   # the entry imports the head of a chain through all local modules; extra forward edges; builtins at the leaves
+            es.append((E, locs[0]))
+            es += [(locs[i], locs[i + 1]) for i in range(len(locs) - 1)]
+            for _ in range(rng.below(8)):
+                i = rng.below(len(locs) - 1); j = i + 1 + rng.below(len(locs) - 1 - i); es.append((locs[i], locs[j]))
+            for _ in range(2 + rng.below(6)): es.append((rng.choice(locs + [E]), rng.below(B)))
+        elif kind == 1:                                 # layered
+            for i, a in enumerate(locs):
+                for _ in range(1 + rng.below(3)):
+                    if i + 1 < len(locs): es.append((a, locs[i + 1 + rng.below(len(locs) - i - 1)]))
+                if rng.below(2): es.append((a, rng.below(B)))
+            for _ in range(1 + rng.below(4)): es.append((E, rng.choice(locs)))
+            es.append((E, rng.below(B)))
+        else:                                           # random attempts among local modules, some closing cycles
+            for _ in range(n + rng.below(2 * n)):
+                i, j = rng.below(len(locs)), rng.below(len(locs))
+                if rng.below(4): i, j = min(i, j), max(i, j)
+                es.append((locs[i], locs[j]))
+            for _ in range(3): es.append((E, rng.choice(locs)))
+            for _ in range(3): es.append((rng.choice(locs), rng.below(B)))
+        for i in range(B - 1):
+            if rng.below(2): es.append((i, i + 1 + rng.below(B - 1 - i)))
+        seqs.append((n, es))
+        big[len(seqs) - 1] = B
+
+    def nm(k, n, i):
+        """names as the compiler sees them: builtin `b…`, entry `e…`, local `m…` (string order = id order, so the model can use the ids)"""
+        if k not in big: return name(i)
+        B = big[k]
+        return ("b%03d" if i < B else "e%03d" if i == B else "m%03d") % i
+    lines = ["%s %s" % (",".join(nm(k, n, i) for i in range(n)), " ".join("%s>%s" % (nm(k, n, a), nm(k, n, b)) for a, b in es)) for k, (n, es) in enumerate(seqs)]
+    mlines = ["%s %s" % (",".join(name(i) for i in range(n)), " ".join("%s>%s" % (name(a), name(b)) for a, b in es)) for n, es in seqs]
     go = run([hook, "depgraph"], input="".join(l + "\n" for l in lines), check=True).stdout.split("\n")
-    md = run_driver(["depgraph"], "".join(l + "\n" for l in lines)).split("\n")
+    md = run_driver(["depgraph"], "".join(l + "\n" for l in mlines)).split("\n")
+    go = [re.sub(r"\b[be](\d\d\d)\b", r"m\1", g) for g in go]          # back to the model's names
     diffs, nontriv = [], 0
-    for (n, es), l, g, m in zip(seqs, lines, go, md):
+    for k, ((n, es), l, g, m) in enumerate(zip(seqs, lines, go, md)):
         if g != m and len(diffs) < 20:
             diffs.append({"line": l, "go": g, "model": m})
         parts = [p.strip() for p in g.split("|")]
